@@ -239,6 +239,18 @@ func (g *Gen) FaultProgram(opts FaultOpts) *Chunk {
 		CallSN("emit", Str("post:goresume2"), CallN("goresume", Fn([]string{"a"}, false, Blk(CallSN("error", Str("Eres%d")))), Num(6))),
 		CallSN("emit", Str("post:goresume3"), CallN("goresume", Fn([]string{"a"}, false, Blk(Return(Bin("+", N("a"), Num(1)), Str("two")))), Num(7))),
 		CallSN("emit", Str("post:goresume4"), CallN("pcall", N("goresume"), Fn(nil, false, Blk(Local1("z", Bin("+", &ENil{}, Num(1))))))),
+		// an error value of any type is delivered as that value, whatever level goes with it
+		CallSN("emit", Str("post:error-value-with-level"), CallN("pcall", Fn(nil, false, Blk(CallSN("error", &ETable{Items: []TItem{{Kind: TName, Name: "code", Val: Num(7)}}}, Num(2))))),
+			CallN("select", Num(2), CallN("pcall", N("error"), &EFalse{}, Num(0))), CallN("type", &EParen{X: CallN("select", Num(2), CallN("pcall", N("error"), &ETable{}, Num(0)))}),
+			CallN("select", Str("#"), CallN("pcall", N("error"), &ENil{}, Num(1)))),
+		// an error that crosses two wrap boundaries on its way to the protected call
+		Local1("w2inner", Call(Dot(N("coroutine"), "wrap"), Fn(nil, false, Blk(&SCall{Call: Call(Dot(N("coroutine"), "yield"), Num(1))}, CallSN("error", &ETable{Items: []TItem{{Kind: TName, Name: "code", Val: Num(5)}}}))))),
+		Local1("w2outer", Call(Dot(N("coroutine"), "wrap"), Fn(nil, false, Blk(&SWhile{Cond: &ETrue{}, Body: Blk(&SCall{Call: Call(Dot(N("coroutine"), "yield"), Bin("*", Call(N("w2inner")), Num(2)))})})))),
+		CallSN("emit", Str("post:two-wraps"), Call(N("w2outer")), CallN("pcall", N("w2outer"))),
+		Local1("w3inner", Call(Dot(N("coroutine"), "wrap"), Fn(nil, false, Blk(CallSN("error", Str("Einner")))))),
+		Local1("w3mid", Call(Dot(N("coroutine"), "wrap"), Fn(nil, false, Blk(Return(Call(N("w3inner"))))))),
+		Local1("w3outer", Call(Dot(N("coroutine"), "wrap"), Fn(nil, false, Blk(Return(Call(N("w3mid"))))))),
+		CallSN("emit", Str("post:three-wraps"), CallN("pcall", N("w3outer"))),
 		// an error in a coroutine reaches the protected call around its wrap call as an error, also
 		// after the running coroutine was (rightly) refused through the other entry point
 		CallSN("emit", Str("post:wrap-after-refused"), CallN("pcall", Call(Dot(N("coroutine"), "wrap"), Fn(nil, false, Blk(
